@@ -4,7 +4,7 @@
    sub-nodes is t (trace entries, trace values, sub-results, locations ... to any depth). *)
 From ACV Require Import Base.Strs Model.Graph Model.Rules Model.Report Model.ReportRef Model.Engine.
 From ACV Require Import Proofs.ReportProofs Proofs.EngineProofs Proofs.ShapeProofs Model.Dnf Extracted.ReportFacts.
-From ACV Require Import Model.Yaml Model.ProfileParser Proofs.ParserMessages.
+From ACV Require Import Model.Yaml Model.ProfileParser Proofs.ParserMessages Proofs.ParserCongruence Proofs.TextSemantics.
 
 Theorem C12_tie_id_scheme : define_id_formats = ref_define_id_formats /\ build_results_loops = ref_build_results_loops.
 Proof. vm_compute. split; reflexivity. Qed.
@@ -67,6 +67,15 @@ Theorem C12_message_nonempty : forall defaults doc p, parse_profile defaults doc
   exists vals v, yget "validations" doc = Some (YMap vals) /\ In (v_name d, v) vals /\ yget "message" v = Some (YScalar "!!str" "").
 Proof. exact parsed_message_empty_only_if_written. Qed.
 
+(* every entry of the verdict computed from the profile text names a validation the document defines under `validations` and
+   lists under the entry's level, a focus that is the @id of a node of the graph, and the message the parser assigns to that
+   validation (non-empty unless written empty: C12_message_nonempty) *)
+Theorem C12_results_grounded_in_text : forall defaults doc g v, verdict defaults doc g = POk v ->
+  exists vals, yget "validations"%string doc = Some (YMap vals) /\
+  forall l nm fo msg, In (l, nm, fo, msg) v ->
+    In (l, nm) (listed_of doc) /\ (exists n, In n g /\ nid n = fo) /\ exists body, In (nm, body) vals /\ msg = message_of body.
+Proof. exact verdict_names_from_text. Qed.
+
 Print Assumptions C12_tie_id_scheme.
 Print Assumptions C12_tie_document.
 Print Assumptions C12_ids_unique_in_result.
@@ -79,3 +88,4 @@ Print Assumptions C12_result_shapes_wf.
 Print Assumptions C12_result_ids_unique.
 Print Assumptions C12_trace_nonempty.
 Print Assumptions C12_message_nonempty.
+Print Assumptions C12_results_grounded_in_text.
